@@ -2549,6 +2549,11 @@ void read_table_column_alignments(const char * source, token * table, scratch_pa
 	while (walker) {
 		switch (walker->type) {
 			case TABLE_CELL:
+				if (counter >= kMaxTableColumns - 1) {
+					// table_alignment[] holds kMaxTableColumns - 1 columns plus the terminator
+					break;
+				}
+
 				align = scan_alignment_string(&source[walker->start]);
 
 				switch (align) {
